@@ -6,8 +6,6 @@ From Coq Require Import ZifyBool.
 Open Scope Z_scope.
 
 (* ---------- small list facts ---------- *)
-Lemma len_cons {A} (x : A) l : len (x :: l) = len l + 1.
-Proof. unfold len; cbn [length]; lia. Qed.
 
 Lemma nth_error_in_range {A} (l : list A) (i : Z) :
   0 <= i < len l -> exists x, nth_error l (Z.to_nat i) = Some x.
